@@ -128,6 +128,7 @@ def handleSpecial (stream : String) (args : List String) : String :=
   | "sdpmid", [] => "ret"
   | "sdpparse", _ => "noncompared"
   | "sdpset", _ => "noncompared"
+  | "dtlslive", _ => "noncompared"
   | "rtx", [hx] =>
     match unhex hx with
     | some bs => showRes (runS Ice.unwrapRtx bs) (fun r => match r with | none => "none" | some (o, l) => s!"{o} {l}")
